@@ -677,6 +677,7 @@ func c18Child(a *ChildArgs) {
 		for i := 0; i < a.N; i++ {
 			r := rand.New(rand.NewSource(base + int64(i)*15485863))
 			c18Diagnostics(a, r)
+			c18LexDiagnostics(a, r)
 		}
 	case "burst":
 		for i := 0; i < a.N; i++ {
@@ -748,6 +749,11 @@ func c18Child(a *ChildArgs) {
 			{"plus-sign-length", "Content-Length: +2\r\n\r\n{}"},
 			{"binary-garbage", "\x00\x01\x02\xff\xfe\r\n\r\n"},
 			{"long-header-line", "X-Pad: " + strings.Repeat("a", 70000) + "\r\nContent-Length: 2\r\n\r\n{}"},
+			// the body left in the stream mentions the header's name itself (document text, a comment, a string)
+			{"non-numeric-length-body-names-header", "Content-Length: abc\r\n\r\n{\"note\":\"Content-Length: 12\"}"},
+			{"negative-length-body-names-header", "Content-Length: -1\r\n\r\n{\"text\":\"SELECT 1 -- Content-Length: x\"}"},
+			{"missing-length-body-names-header", "Content-Type: application/json\r\n\r\n{\"a\":\"content-length: 3\",\"b\":\"Content-Length:\"}"},
+			{"over-limit-length-body-names-header", "Content-Length: 10485761\r\n\r\nContent-Length: 7 Content-Length: 9 "},
 		}
 		for i := 0; i < a.N; i++ {
 			r := rand.New(rand.NewSource(base + int64(i)*15485863))
@@ -762,7 +768,8 @@ func c18Child(a *ChildArgs) {
 			// a message whose header cannot be used but whose extent is evident (complete header block, short body in
 			// place) must not cost the rest of the session: the requests after it are answered like any other
 			switch f.name {
-			case "negative-length", "huge-length", "over-limit-length", "non-numeric-length", "missing-length", "two-length-headers", "length-with-spaces", "plus-sign-length", "long-header-line":
+			case "negative-length", "huge-length", "over-limit-length", "non-numeric-length", "missing-length", "two-length-headers", "length-with-spaces", "plus-sign-length", "long-header-line",
+				"non-numeric-length-body-names-header", "negative-length-body-names-header", "missing-length-body-names-header", "over-limit-length-body-names-header":
 				for k := 0; k < 2+r.Intn(2); k++ {
 					st := c18Request(r, &idn, s.docs)
 					st.Label += "@after-" + f.name
@@ -942,5 +949,85 @@ func c18Diagnostics(a *ChildArgs, r *rand.Rand) {
 		}
 	} else {
 		a.Rec.Count("diag_count_mismatch_with_plant", 1)
+	}
+}
+
+// c18LexDiagnostics: a document the tokenizer rejects (one diagnostic) whose other lines hold text that looks like a
+// position (array slices, bracketed pairs, "line N, column M" in comments and strings): the diagnostic is anchored on
+// the line of the ill-formed lexeme.
+func c18LexDiagnostics(a *ChildArgs, r *rand.Rand) {
+	good := []string{"SELECT tags[1:2] FROM posts;", "SELECT a[2:3], b[1:1] FROM t;", "SELECT a FROM t; -- see [4:7]", "SELECT 'line 9, column 4' FROM t;", "-- at line 1, column 1", "SELECT a FROM t WHERE b = '[1:1]';",
+		"/* position 3 */ SELECT 1;", "SELECT a FROM t;", "", "SELECT x[7:9] FROM t WHERE y = 'position 0';", "UPDATE t SET a = b[1:5];"}
+	bads := []string{"SELECT 'draft FROM posts", "SELECT \"name FROM t", "SELECT `name FROM t", "SELECT a \x01 FROM t", "SELECT a /* never closed", "SELECT $tag$ open"}
+	var lines []string
+	n := 1 + r.Intn(5)
+	for k := 0; k < n; k++ {
+		lines = append(lines, good[r.Intn(len(good))])
+	}
+	badLine := len(lines)
+	lines = append(lines, bads[r.Intn(len(bads))])
+	text := strings.Join(lines, "\n")
+	if _, err := gosqlx.Parse(text); err == nil {
+		return
+	}
+	if tk := mustTokenizer(); true {
+		if _, err := tk.Tokenize([]byte(text)); err == nil {
+			return // not a lexical failure after all
+		}
+	}
+	s := &c18Session{docs: map[string]*c18Doc{}}
+	uri := c18URIs[0]
+	how := r.Intn(3)
+	switch how {
+	case 0:
+		s.open(uri, text, 1)
+	case 1:
+		s.open(uri, "SELECT 1", 1)
+		s.change(uri, 2, []c18Change{{full: true, text: text}}, "didChange:full")
+	default:
+		// everything but the last byte, then the last byte as an incremental edit at the end
+		s.open(uri, text[:len(text)-1], 1)
+		ll := lines[len(lines)-1]
+		u := 0
+		for _, c := range ll[:len(ll)-1] {
+			if c >= 0x10000 {
+				u += 2
+			} else {
+				u++
+			}
+		}
+		s.change(uri, 2, []c18Change{{sl: badLine, sc: u, el: badLine, ec: u, text: text[len(text)-1:]}}, "didChange:append")
+	}
+	res := c18CheckSession(a, s, "diagnostics-lexical", true)
+	if res.Panic != "" || res.FrameErr != "" {
+		return
+	}
+	wit := map[string]interface{}{"text": text, "bad_line_0based": badLine, "how": []string{"didOpen", "full change", "incremental change"}[how]}
+	var last *lspFrame
+	for i := range res.Frames {
+		f := &res.Frames[i]
+		if f.Method == "textDocument/publishDiagnostics" {
+			last = f
+		}
+	}
+	if last == nil {
+		return
+	}
+	var p struct {
+		Diagnostics []struct {
+			Range   struct{ Start, End struct{ Line, Character int } }
+			Message string
+		}
+	}
+	json.Unmarshal(last.Params, &p)
+	if len(p.Diagnostics) != 1 {
+		a.Rec.Count("lex_diag_count_not_one", 1)
+		return
+	}
+	a.Rec.Count("evaluations", 1)
+	a.Rec.Distinct("cases", "lex-diagnostic/"+text)
+	// the unterminated lexeme starts on the last line (a never-closed comment or string may be reported where it opens: same line here)
+	if got := p.Diagnostics[0].Range.Start.Line; got != badLine {
+		a.Rec.Viol("C18/diagnostics/lexical-line", "each anchored on the line of the token that caused it", fmt.Sprintf("the ill-formed lexeme is on line %d (0-based), the diagnostic on line %d: %s", badLine, got, p.Diagnostics[0].Message), wit)
 	}
 }
